@@ -9,7 +9,7 @@ META = {
     'level': 'proof',
     'rule': 'cases = (automaton, word list, closure arguments); exhaustive NFAs with <=2 states over {a} (quick) / '
             '{a,b} (thorough) and DFAs with <=2 (3) states, then seeded random automata with 1-6 states; '
-            'non-trivial = NFA with >=1 epsilon move and >=1 non-empty word, or DFA with >=2 states; distinct by content; also state names that are legal str values but unusual (\'\', \' \', \'{}\', \'None\', \'0\'), in-place-edit history cases',
+            'non-trivial = NFA with >=1 epsilon move and >=1 non-empty word, or DFA with >=2 states; distinct by content; also state names that are legal str values but unusual (\'\', \' \', \'{}\', \'None\', \'0\'), in-place-edit history cases; shortcut-free epsilon chains through 6-13 numbered states and one chain of 1100 states',
     'assumptions': ['theorems hold under NFA.valid / DFA.valid (the constructors enforce these) and words over Sigma',
                     'states/symbols are Python str; Lean model instantiated at String'],
     'trusted_base': ['Spec: Gamba/Spec/Automata.lean (DRun, NRun, EpsReach)'],
@@ -44,6 +44,13 @@ def cases(ctx):
         sets = [sorted(rng.sample(s['Q'], rng.randint(0, len(s['Q'])))) for _ in range(2)]
         if not thorough or ctx.mine(i):
             yield {'kind': 'nfa', 'N': s, 'words': ws, 'sets': sets}
+    # larger automata: shortcut-free epsilon chains through 6-13 numbered states, and one chain longer than 1000 states
+    for i in range(40 if not thorough else 400):
+        s = gen.eps_chain_nfa(rng)
+        ws = gen.all_words(s['Sigma'], 3 if len(s['Sigma']) == 1 else 2)
+        if not thorough or ctx.mine(i):
+            yield {'kind': 'nfa', 'N': s, 'words': ws, 'sets': [sorted(rng.sample(s['Q'], 3))]}
+    yield {'kind': 'nfa', 'N': gen.long_eps_chain_nfa(1100), 'words': ['a', ''], 'sets': [], 'closure_states': ['c0', 'c90'], 'no_edit': True}
     for i in range(600 if not thorough else 5000):
         s = gen.random_dfa(rng)
         ws = gen.all_words(s['Sigma'], 4 if len(s['Sigma']) <= 2 else 3)
@@ -61,7 +68,7 @@ def lean_requests(c):
     N = c['N']
     sched = c.get('sched', [])
     reqs = [{'op': 'nfa_accepts', 'N': N, 'w': list(w), 'sched': sched} for w in c['words']]
-    reqs += [{'op': 'eps_closure', 'N': N, 'S': [q], 'sched': sched} for q in N['Q']]
+    reqs += [{'op': 'eps_closure', 'N': N, 'S': [q], 'sched': sched} for q in c.get('closure_states', N['Q'])]
     reqs += [{'op': 'eps_closure', 'N': N, 'S': S, 'sched': sched} for S in c['sets']]
     return reqs
 
@@ -119,7 +126,7 @@ def judge(ctx, c, answers):
             ctx.count('nfa:foreign-symbol')
             if la != r:
                 ctx.violation('correspondence:nfa_accepts', {'case': dict(c, words=[w], sets=[]), 'impl': r, 'model': la}, no_input=True)
-    args = [q for q in c['N']['Q']] + [set(S) for S in c['sets']]
+    args = [q for q in c.get('closure_states', c['N']['Q'])] + [set(S) for S in c['sets']]
     for a, la in zip(args, answers[k:]):
         S = a if isinstance(a, set) else {a}
         r1 = norm(call(epsilon_closure, N, a if not isinstance(a, set) else set(a)), sorted)
@@ -134,7 +141,7 @@ def judge(ctx, c, answers):
             ctx.violation('correspondence:eps_closure', {'case': sub, 'impl': r1, 'model': la}, no_input=True)
         ctx.count('closure:size>1' if len(exp['ok']) > len(S) else 'closure:trivial')
     # history: the same object, edited in place (still a valid NFA), must be judged by its CURRENT content
-    if c['N']['Q'] and c['words']:
+    if c['N']['Q'] and c['words'] and not c.get('no_edit'):
         q = c['N']['Q'][0]
         spec2 = dict(c['N'], F=[y for y in c['N']['F'] if y != q] if q in c['N']['F'] else c['N']['F'] + [q])
         N2 = enc.build_nfa(c['N'])
